@@ -83,7 +83,7 @@ def run_pass(ctx, runs):
     probe = lib.run_tasks([{"kind": "capture_probe", "which": "cr", "timeout": 60}], timeout=60, jobs=1)[0]
     pcase = _probe_case(probe)
     U.run_cases(ctx, lib, "pcr", cases + ([pcase] if pcase else []))
-    reported = 0
+    mism = []
     for c in cases:
         ctx.coverage["obligations"] += c["n"]
         st["compared"] += c["n"]
@@ -101,32 +101,7 @@ def run_pass(ctx, runs):
         eq, wf, d = c["res"]
         if not eq or not c["untouched"]:
             st["mismatches"] = st.get("mismatches", 0) + c["n"]
-            if reported >= 3:
-                continue
-            reported += 1
-            sem = U.semantic_search(ctx, lib, run, b, a, f"sem_{PASS}_{cases.index(c)}")
-            if sem:
-                ctx.violation(f"pass:{PASS}:{run['text']}:{json.dumps(run['opts'], sort_keys=True)}",
-                              {"program_text": run["text"], "options": run["opts"], "pass": PASS, "n": sem[0], "observed": f"E({sem[1]})",
-                               "before_pass": sem[2], "after_pass": sem[3],
-                               "before_pass_program": [U.ga_text(x) for x in b["init"]] + ["while true:"] + [U.ga_text(x) for x in b["body"]],
-                               "after_pass_program": [U.ga_text(x) for x in a["init"]] + ["while true:"] + [U.ga_text(x) for x in a["body"]]},
-                              f"after {PASS} (options {run['opts']}) E({sem[1]}) after {sem[0]} iterations is {sem[3]}, but {sem[2]} before the "
-                              f"pass (reference semantics on Polar's two snapshots)\n{run['text']}")
-                continue
-            allp = a["init"] + a["body"]
-            what = (f"{PASS}: Polar's output differs from the model PassCondReduce.cr_prog (counter {c['k0']}) "
-                    + (f"at assignment {d} (initial block then loop body)" if not eq else "in the loop guard")
-                    + f" (options {run['opts']}); theorem C02_cond_reduce_preserves no longer covers the code\n{run['text']}")
-            ctx.violation(f"model:{PASS}:{run['text']}:{json.dumps(run['opts'], sort_keys=True)}",
-                          {"correspondence": "PassCondReduce.cr_prog  vs  ConditionsReducer.execute / Atom.reduce",
-                           "theorem": "props/C02_CondReduce.v: C02_cond_reduce_preserves",
-                           "program_text": run["text"], "options": run["opts"], "counter": c["k0"],
-                           "first_differing_assignment": d,
-                           "before_pass": [U.ga_text(x) for x in b["init"] + b["body"]],
-                           "after_pass_polar": [U.ga_text(x) for x in allp],
-                           "polar_assignment_at_difference": U.ga_text(allp[d]) if d < len(allp) else None},
-                          what, no_input=True)
+            mism.append(c)
             continue
         if not wf:
             st["hypothesis_failed"] += c["n"]
@@ -134,6 +109,7 @@ def run_pass(ctx, runs):
             continue
         st["equal_and_hypothesis_holds"] += c["n"]
         ctx.coverage["discharged"] += c["n"]
+    U.report_mismatches(ctx, lib, PASS, mism, "PassCondReduce.cr_prog", "props/C02_CondReduce.v: C02_cond_reduce_preserves", lambda d: d["init"] + d["body"])
     _probe_report(ctx, probe, pcase, st)
     ctx.coverage.setdefault("pass_models", {})[PASS] = st
     print(f"  [pass {PASS}] " + " ".join(f"{k}={v}" for k, v in st.items() if isinstance(v, int)) + f" wall={time.time() - t0:.1f}s", flush=True)
